@@ -227,19 +227,8 @@ def _with_fail(rng, max_n, kinds=("Boom", "Boom", "ValueError", "BaseBoom", "Zer
 
 def generate(ctx):
     rng = ctx.rng
-    for _ in range(ctx.n(1000, 15000)):
+    for _ in range(ctx.n(1000, 8000)):
         yield "trace", _with_fail(rng, rng.choice([4, 7, 10, 14, 18]))
-    # every single failing task of every small dag, every completion order
-    for n in range(1, 5 if ctx.thorough() else 4):
-        dags = list(U.all_dags(n, kinds=("d", "t")))
-        if n == 4:
-            dags = rng.sample(dags, 250)
-        for nodes in dags:
-            tasks = [i for i, nd in enumerate(nodes) if nd[0] == "t"]
-            for f in tasks:
-                dag = {"nodes": nodes, "keys": rng.choice(["str", "tuple", "int"]), "style": rng.choice(["legacy", "spec", "mixed"])}
-                yield "exh", {"dag": dag, "req": list(range(n)), "nw": rng.choice([1, 2, 3]), "cs": rng.choice([1, 2, -1]),
-                              "fails": {str(f): "Boom"}, "seed": 0, "bias": None, "limit": 200}
     scheds = ["sync", "threaded", "threaded", "threadpool"]
     for _ in range(ctx.n(80, 1200)):
         inp = _with_fail(rng, rng.choice([6, 12, 25]))
@@ -251,6 +240,17 @@ def generate(ctx):
         inp["dag"]["keys"] = rng.choice(["str", "tuple"])
         yield "api", {"dag": inp["dag"], "req": inp["req"], "sched": "mp", "nw": 2, "cs": rng.choice([1, 6]),
                       "fails": inp["fails"], "seed": 0, "rerun": None}
+    # every single failing task of every small dag, every completion order
+    for n in range(1, 5 if ctx.thorough() else 4):
+        dags = list(U.all_dags(n, kinds=("d", "t")))
+        if n == 4:
+            dags = rng.sample(dags, 250)
+        for nodes in dags:
+            tasks = [i for i, nd in enumerate(nodes) if nd[0] == "t"]
+            for f in tasks:
+                dag = {"nodes": nodes, "keys": rng.choice(["str", "tuple", "int"]), "style": rng.choice(["legacy", "spec", "mixed"])}
+                yield "exh", {"dag": dag, "req": list(range(n)), "nw": rng.choice([1, 2, 3]), "cs": rng.choice([1, 2, -1]),
+                              "fails": {str(f): "Boom"}, "seed": 0, "bias": None, "limit": 200}
 
 
 def search(ctx):
